@@ -47,8 +47,9 @@ def register(S):
         outs.append(s_v)
         return outs
 
-    def existing_value(ip, st, vty):
-        """symbolic pre-existing map value: every field unknown; counters start at 0 when counter_delta is on"""
+    def existing_value(ip, st, vty, prefix=""):
+        """symbolic pre-existing map value: every field unknown; counters start at the representative value 1000 when counter_delta is on.
+        Each unknown carries ("existing", field name) and ("existing_path", dotted path from the record)"""
         if isinstance(vty, dict) and vty.get("k") == "adt":
             adt = ip.prog.adts.get(vty["path"])
             if adt and adt["kind"] == "struct":
@@ -56,13 +57,14 @@ def register(S):
                 for f in adt["variants"][0]["fields"]:
                     t = ty_of_json(f["ty"])
                     if t is not None and ip.opts.get("counter_delta") and f["name"] == "num_messages":
-                        fields.append(IntVal.const(t, 0))
+                        # an arbitrary non-zero representative count (not 0, so a reset to the default is visible as a wrong delta)
+                        fields.append(IntVal.const(t, 1000))
                     elif isinstance(f["ty"], dict) and f["ty"].get("k") == "adt" and f["ty"]["path"] in ip.prog.adts and ip.prog.adts[f["ty"]["path"]]["kind"] == "struct":
-                        fields.append(existing_value(ip, st, f["ty"]))
+                        fields.append(existing_value(ip, st, f["ty"], prefix + f["name"] + "."))
                     elif isinstance(f["ty"], dict) and f["ty"].get("k") == "array" and f["ty"].get("len") is not None and f["ty"]["len"] <= 8:
-                        fields.append(ArrayVal([top_of(f["ty"]["elem"], tags=frozenset([("existing", "%s[%d]" % (f["name"], j))])) for j in range(f["ty"]["len"])], f["ty"]["len"], f["ty"]["elem"]))
+                        fields.append(ArrayVal([top_of(f["ty"]["elem"], tags=frozenset([("existing", "%s[%d]" % (f["name"], j)), ("existing_path", "%s%s[%d]" % (prefix, f["name"], j))])) for j in range(f["ty"]["len"])], f["ty"]["len"], f["ty"]["elem"]))
                     else:
-                        fields.append(top_of(f["ty"], tags=frozenset([("existing", f["name"])])))
+                        fields.append(top_of(f["ty"], tags=frozenset([("existing", f["name"]), ("existing_path", prefix + f["name"])])))
                 return AdtVal(vty["path"], 0, fields, vname=adt["variants"][0]["name"])
         return top_of(vty)
 
